@@ -3,5 +3,6 @@
 package expect
 
 var verifHarnesses = map[string]func(){
-	"VerifC19": VerifC19,
+	"VerifC19Exit": VerifC19Exit,
+	"VerifC19":     VerifC19,
 }
